@@ -7,10 +7,13 @@ n = len(metas)
 strengthened = [m for m in metas if m.get('strengthened')]
 tie_only = [m for m in strengthened if 'first reported' in m['strengthened'] or 'reports it as a broken' in m['strengthened']]
 missed = [m for m in strengthened if m not in tie_only]
-res = {'concrete': 0, 'noinput': 0, 'none': 0}
+res = {'concrete': 0, 'noinput': 0, 'none': 0, 'notrun': 0}
 for d in sorted(glob.glob('/verif/seeded/C*-*')):
     f = d + '/result-quick.txt'
-    t = open(f).read() if os.path.exists(f) else ''
+    if not os.path.exists(f) or not open(f).read().strip():
+        res['notrun'] += 1
+        continue
+    t = open(f).read()
     v = re.findall(r'^VIOLATION .*$', t, flags=re.M)
     if any('no-failing-input-found' not in x for x in v): res['concrete'] += 1
     elif v: res['noinput'] += 1
@@ -30,7 +33,7 @@ and as a status violation by C02's LOOKUP expectation.
 **Independently seeded changes.** Four rounds of fresh sub-agents, each given only the text of one property and
 its own scratch worktree of `/repo` (nothing from `/verif`; later rounds were also told what the earlier ones
 had changed and asked for a different function, mechanism, configuration or clause), produced %d wrong changes - four per
-property - that compile and keep the existing 1361-test suite green. Each was confirmed by
+property, plus ten from a partial fifth round - that compile and keep the existing 1361-test suite green. Each was confirmed by
 `tools/confirm_seed.sh` (suite passes with the change, the agent's demonstration test fails with it and passes
 without it) and filed under `seeded/<Cxx-n>/` (`patch.diff`, `seed_demo_test.go`, `NOTES.md`, `meta.json`,
 `result-quick.txt`). `tools/run_seeded.sh <id>` runs the property's registered check(s) against a scratch
@@ -38,7 +41,8 @@ worktree carrying the patch (`VERIF_REPO` mode: own copy of the Coq tree, no evi
 untouched).
 
 Outcome (quick tier, as committed): %d reported with a concrete replay, %d reported only as a broken tie or
-correspondence (`no-failing-input-found`), %d not reported. %d of the %d were reported as they came; %d were first
+correspondence (`no-failing-input-found`), %d not reported, %d filed but not run (a fifth, partial round of ten changes
+made at the very end of the session, kept as a held-out set: `tools/run_seeded.sh <id>` runs them). %d of the %d were reported as they came; %d were first
 missed and %d first reported without an input, and each of those led to a stronger generator, oracle or stream
 (last column) - after which the unchanged tree was re-checked to stay quiet. The recurring blind spots were:
 (i) effects that only show on a *second look* inside the cache TTL (LOOKUP sandwiches and directory sweeps around
@@ -54,6 +58,6 @@ which is the honest measure of how much the sampled side of this machinery cover
 it, and a change that invalidates a `Cxx_facts` obligation or the model correspondence is reported at least as a
 broken tie.
 
-''' % (n, res['concrete'], res['noinput'], res['none'], n - len(strengthened), n, len(missed), len(tie_only)) + table + '\n\n'
+''' % (n, res['concrete'], res['noinput'], res['none'], res['notrun'], n - len(strengthened) - res['notrun'], n - res['notrun'], len(missed), len(tie_only)) + table + '\n\n'
 open('/verif/DESIGN.md', 'w').write(s[:i] + new + s[j:])
 print(n, res, len(missed), len(tie_only))
